@@ -22,8 +22,13 @@ TStruct == /\ Is("Struct") /\ Adv
            /\ \A i \in DOMAIN Ev.fields : FieldOK(Ev.fields[i], ToSet(Ev.anns))
            /\ Ev.law.builder /\ Ev.law.tuple /\ Ev.law.unapply /\ Ev.law.map /\ Ev.law.mutable /\ Ev.law.labelled /\ Ev.law.string
            /\ Ev.panics = <<>>
+\* one call of the generated API on a real value: the abstract value after it must be what the specification's operator gives
+TrSome(v) == "Some(" \o v \o ")"
+TOp == /\ Is("Op") /\ Adv
+       /\ OpEnabled(Ev.shape, Ev.op, Ev.i)
+       /\ Ev.y = Expected(Ev.shape, Ev.op, Ev.x, Ev.i, Ev.v, Ev.z)
 TDetail == Is("JsonDetail") /\ Adv
-TNext == TGenerate \/ TStruct \/ TDetail
+TNext == TGenerate \/ TStruct \/ TOp \/ TDetail
 TInit == l = 1 /\ shape = <<>> /\ x = <<>> /\ y = <<>> /\ step = <<"init", 0, 0>>
 TSpec == TInit /\ [][TNext]_<<l, gbvars>>
 HighWater == TLCSet(1, IF TLCGet(1) < l THEN l ELSE TLCGet(1))
